@@ -1,5 +1,5 @@
-(** Sacramento (C10): whole-step and whole-run water budget under the guards of
-    KernelProofs/SacramentoLand.v, obtained by combining the two land-phase budgets
+(** Sacramento (C10), REPAIRED code: whole-step and whole-run water budget (hypotheses: sac_ok, the
+    store invariant, non-negative forcing with pet <= uztwm + lztwm; see KernelProofs/SacramentoLand.v), obtained by combining the two land-phase budgets
     (pervious area, ADIMP area) with the channel-phase budget of KernelProofs/Sacramento.v. *)
 From Coq Require Import Reals Lra Lia List Bool ZArith.
 From OW Require Import Base.Arith Base.RInst Base.Mealy Kernels.Sacramento
@@ -39,13 +39,13 @@ Qed.
 
 (** per-step budget: stores after + runoff + actual ET <= stores before + rain
     (the difference is the losses: side flow, ssout) *)
-Theorem sac_step_budget_guarded : forall p st io, sac_ok p = true -> lzfpm p <= lzfsm p -> 10 <= lztwm p ->
-  st_inv p st -> qq_ok (qq st) -> 0 <= fst io -> 0 <= snd io -> pre_guard p st (snd io) ->
+Theorem sac_step_budget : forall p st io, sac_ok p = true ->
+  st_inv p st -> qq_ok (qq st) -> 0 <= fst io -> 0 <= snd io <= uztwm p + lztwm p ->
   sac_stock p (fst (sac_step p st io)) + (o_runoff (snd (sac_step p st io)) + o_aet (snd (sac_step p st io)))
     <= sac_stock p st + fst io.
 Proof.
-  intros p st io Hok Hm Ht I Hq Hp He G.
-  destruct (sac_land_inv p st io Hok Hm Ht I Hp He G) as (I1 & U1 & E1 & E2 & E3 & E5 & Es & B1 & B2).
+  intros p st io Hok I Hq Hp [He He'].
+  destruct (sac_land_inv p st io Hok I Hp (conj He He')) as (I1 & U1 & E1 & E2 & E3 & E5 & Es & B1 & B2).
   destruct I1 as [F1 F2 F3 F4 F5 Fbf Fin Fsf Fro].
   pose proof (sac_channel_ok p (qq st) (snd io) (i_flosf (l_v (sac_land p st io)))
                 (i_roimp (l_v (sac_land p st io))) (i_floin (l_v (sac_land p st io)))
@@ -76,43 +76,36 @@ Qed.
 Section Run.
   Variable p : sac_par (T:=R).
   Hypothesis Hok : sac_ok p = true.
-  Hypothesis Hm : lzfpm p <= lzfsm p.
-  Hypothesis Ht : 10 <= lztwm p.
 
   (** whole run and every prefix: cumulative runoff + actual ET never exceeds cumulative rain
       plus the water initially stored *)
-  Theorem sacramento_budget_guarded : forall io st, st_inv p st -> qq_ok (qq st) -> io_nonneg io ->
-    sac_guarded p st io ->
+  Theorem sacramento_budget : forall io st, st_inv p st -> qq_ok (qq st) -> io_nonneg io ->
+    pet_bounded p io ->
     sac_stock p (fst (sac_run p st io))
       + rr_sum (map (fun o => o_runoff o + o_aet o) (snd (sac_run p st io)))
       <= sac_stock p st + rr_sum (map fst io).
   Proof.
     induction io as [|x r IH]; intros st I Hq Hio G.
     - cbn. lra.
-    - inversion Hio as [|? ? [Hx1 Hx2] Hr]; subst. destruct G as [G1 G2].
-      destruct (sac_step_inv p st x Hok Hm Ht I Hq Hx1 Hx2 G1) as (I1 & Q1 & _).
-      pose proof (sac_step_budget_guarded p st x Hok Hm Ht I Hq Hx1 Hx2 G1) as B.
+    - inversion Hio as [|? ? [Hx1 Hx2] Hr]; subst. inversion G as [|? ? G1 G2]; subst.
+      destruct (sac_step_inv p st x Hok I Hq Hx1 (conj Hx2 G1)) as (I1 & Q1 & _).
+      pose proof (sac_step_budget p st x Hok I Hq Hx1 (conj Hx2 G1)) as B.
       specialize (IH (fst (sac_step p st x)) I1 Q1 Hr G2).
       unfold sac_run in *. cbn [run]. destruct (sac_step p st x) as [s1 o]. cbn [fst snd] in *.
       destruct (run (sac_step p) s1 r) as [s2 os]. cbn [fst snd map rr_sum] in *. lra.
   Qed.
 
-  Lemma sac_guarded_firstn : forall io st t, sac_guarded p st io -> sac_guarded p st (firstn t io).
-  Proof.
-    induction io as [|x r IH]; intros st [|t] G; cbn; auto. destruct G as [G1 G2]. split; auto.
-  Qed.
-
-  Theorem sacramento_cumulative_guarded : forall io st t, st_inv p st -> qq_ok (qq st) -> io_nonneg io ->
-    sac_guarded p st io ->
+  Theorem sacramento_cumulative : forall io st t, st_inv p st -> qq_ok (qq st) -> io_nonneg io ->
+    pet_bounded p io ->
     rr_sum (firstn t (map (fun o => o_runoff o + o_aet o) (snd (sac_run p st io))))
       <= rr_sum (firstn t (map fst io)) + sac_stock p st.
   Proof.
     intros io st t I Hq Hio G.
     rewrite !firstn_map. unfold sac_run. rewrite <- run_firstn.
-    pose proof (sacramento_budget_guarded (firstn t io) st I Hq (io_nonneg_firstn io t Hio)
-                  (sac_guarded_firstn io st t G)) as B.
-    destruct (sacramento_c10_guarded p (firstn t io) st Hok Hm Ht I Hq (io_nonneg_firstn io t Hio)
-                (sac_guarded_firstn io st t G)) as (I1 & Q1 & _).
+    pose proof (sacramento_budget (firstn t io) st I Hq (io_nonneg_firstn io t Hio)
+                  (pet_bounded_firstn p io t G)) as B.
+    destruct (sacramento_c10 p (firstn t io) st Hok I Hq (io_nonneg_firstn io t Hio)
+                (pet_bounded_firstn p io t G)) as (I1 & Q1 & _).
     pose proof (sac_stock_nonneg p _ Hok I1 Q1). unfold sac_run in *. lra.
   Qed.
 End Run.
@@ -127,7 +120,7 @@ Qed.
 Lemma st_inv_iff p st : st_inv p st <->
   (0 <= uztwc st <= uztwm p /\ 0 <= uzfwc st <= uzfwm p /\ 0 <= lztwc st <= lztwm p /\
    0 <= alzfpc st <= lzfpm p * (1 + side p) /\ 0 <= alzfsc st <= lzfsm p * (1 + side p) /\
-   uztwc st <= adimc st <= uztwc st + lztwm p).
+   0 <= adimc st <= uztwc st + lztwm p).
 Proof.
   split.
   - intros []. tauto.
